@@ -254,7 +254,20 @@ func (fsm *FSM) Snapshot() (raft.FSMSnapshot, error) {
 	compactionEnd := compactionStart.Add(-1 * exp)
 
 	tmpServer := ircserver.NewIRCServer("testnetwork", time.Now())
-	if oldState, ok := fsm.lastSnapshotState[first-1]; !ok {
+	// The state to start from is the most recent snapshot state which
+	// precedes the first retained entry. Its index is not necessarily
+	// first-1: raft-internal entries are not stored in the ircstore, and
+	// a snapshot which compacted all entries is stored under the index of
+	// the last entry.
+	var base uint64
+	found := false
+	for key := range fsm.lastSnapshotState {
+		if key < first && (!found || key > base) {
+			base = key
+			found = true
+		}
+	}
+	if !found {
 		if first == 1 {
 			// This is the first snapshot which this RobustIRC network
 			// is taking, there cannot be previous state.
@@ -263,14 +276,14 @@ func (fsm *FSM) Snapshot() (raft.FSMSnapshot, error) {
 			glog.Errorf("No snapshot state containing index %d found. Unless you just upgraded this node from v0.3, this is a BUG.", first-1)
 		}
 	} else {
-		if _, err := tmpServer.Unmarshal(oldState); err != nil {
+		if _, err := tmpServer.Unmarshal(fsm.lastSnapshotState[base]); err != nil {
 			return nil, err
 		}
-		// All snapshot states but first-1 can now be deleted. first-1
+		// All snapshot states but base can now be deleted. base
 		// needs to be retained in case the snapshot which is
 		// currently in progress fails and needs to be repeated.
 		for key, _ := range fsm.lastSnapshotState {
-			if key == first-1 {
+			if key == base {
 				continue
 			}
 			delete(fsm.lastSnapshotState, key)
@@ -279,6 +292,8 @@ func (fsm *FSM) Snapshot() (raft.FSMSnapshot, error) {
 
 	iterator := fsm.ircstore.GetBulkIterator(first, last+1)
 	defer iterator.Release()
+	// If no entry is retained, the state covers all entries up to last.
+	compactedAll := true
 	available := iterator.First()
 	for available {
 		var nlog raft.Log
@@ -317,6 +332,7 @@ func (fsm *FSM) Snapshot() (raft.FSMSnapshot, error) {
 		parsed := robust.NewMessageFromBytes(nlog.Data, robust.IdFromRaftIndex(nlog.Index))
 		if parsed.Timestamp().After(compactionEnd) {
 			first = i
+			compactedAll = false
 			break
 		}
 
@@ -329,6 +345,10 @@ func (fsm *FSM) Snapshot() (raft.FSMSnapshot, error) {
 			}
 			fsm.ircstore.DeleteRange(i, i)
 		}
+	}
+
+	if compactedAll {
+		first = last + 1
 	}
 
 	state, err := tmpServer.Marshal(first - 1)
